@@ -22,8 +22,18 @@ REG = dict(
         "OpdaProofs/OrderStatBeta.lean. The coverage of the code's critical value is therefore NOT claimed to be Beta distributed: it "
         "is bracketed by two Beta variables, and the accepted window runs from the lower 5e-11 quantile of Beta(k, N+1-k) to the upper "
         "5e-11 quantile of Beta(k+1, N-k), k = c*N (an integer for every confidence of the ld stratum; then floor(c(N-1))+1 = k for 0<c<1)",
-        "TRUSTED for the ld window: (i) the law of the simulated statistic max_i cov_i(U_(i)) has a continuous distribution function "
-        "(hypothesis of the Beta theorems, not proved); (ii) np.quantile(ts, c) is the linear interpolation between the order statistics "
+        "PROVED (no longer trusted) for ld_equal_tailed: the law of the simulated statistic max_i cov_i(U_(i)) has a continuous "
+        "distribution function. For n >= 1 independent uniforms and any functions c_i with finite (or Lebesgue-null) level sets in "
+        "[0,1], P[max_i c_i(U_(i)) = t] = 0 for every t (ld_statistic_no_atoms); for measurable c_i the law is a probability measure "
+        "whose distribution function is continuous and equals the band coverage at the critical value (ld_statistic_cdf_continuous, "
+        "ld_law_cdf_is_band_coverage); 2|1/2 - G x| has level sets of at most two points for G strictly increasing on [0,1] "
+        "(equal_tailed_level_sets) and the Beta(a,b) distribution function is strictly increasing on [0,1] "
+        "(beta_cdf_strictly_increasing), so the Beta theorems hold for ld_equal_tailed without the continuity hypothesis "
+        "(ld_equal_tailed_critical_value_coverage_is_beta, ld_equal_tailed_interpolated_critical_value_between_betas); lemmas in "
+        "OpdaProofs/LdStat.lean",
+        "TRUSTED for the ld window: (i) for ld_highest_density only: the coverage functions have finite level sets in [0,1] (explicit "
+        "hypothesis of ld_critical_value_coverage_is_beta_of_finite_level_sets; implied by the V shape about the mode, "
+        "v_shaped_level_sets, which is not proved for the highest-density coverage function); (ii) np.quantile(ts, c) is the linear interpolation between the order statistics "
         "number floor(c(N-1))+1 and the next one (1-based; numpy's documented default, not formalised); (iii) scipy.stats.beta.ppf for "
         "the two window quantiles (compared against the exact binomial polynomial in C15)",
         "level tables are read off the returned distributions through their public cdf (doubles taken as exact rationals); the "
@@ -47,17 +57,22 @@ TEXT = dict(
           "probability measure with continuous distribution function F, P[F(T_(k)) <= t] = Beta(k, N+1-k) distribution function (binomial "
           "count of draws below t under the product measure + probability integral transform), and the coverage of a critical value "
           "interpolated between T_(k) and T_(k+1) (np.quantile) has its distribution function between those of Beta(k+1, N-k) and "
-          "Beta(k, N+1-k) -- a bracket, not a Beta law. Evaluated on every run with the proved evaluator on the code's own "
+          "Beta(k, N+1-k) -- a bracket, not a Beta law; the statistic max_i c_i(U_(i)) has no atoms whenever the c_i have finite level sets in "
+          "[0,1], so its distribution function is continuous -- unconditionally for ld_equal_tailed (Beta distribution functions "
+          "are strictly increasing on [0,1]), given finite level sets for ld_highest_density. Evaluated on every run with the proved evaluator on the code's own "
           "level tables: dkw >= c, ks = c +- 1e-12, ld inside the stated Beta interval, for n <= 40 (80 thorough), confidences incl. 0 "
           "and 1, finite and infinite bounds; Steck's determinant is evaluated alongside and must agree exactly.",
     note="For every continuous F the probability that a band with given level tables contains F everywhere is now a Lean theorem "
          "(rectangle probability, evaluated per table for n <= 80, + probability-integral transform; neither is cited any more); "
          "DKW-Massart is only needed for the universal dkw claim beyond the evaluated tables. The Beta law of a simulated order statistic "
          "(ld) is now a Lean theorem too, with the honest reading that the code's interpolated critical value has a coverage between two "
-         "Beta variables; the continuity of the statistic's distribution function and numpy's interpolation rule are assumed. n beyond 80 is evaluated by the Durbin matrix oracle for dkw/ks only.",
+         "Beta variables; the continuity of the statistic's distribution function is a theorem for ld_equal_tailed (no atoms: finite "
+         "level sets of the coverage functions) and follows for ld_highest_density from finite level sets, which are assumed there; "
+         "numpy's interpolation rule is assumed. n beyond 80 is evaluated by the Durbin matrix oracle for dkw/ks only.",
     technique="Lean 4 proof of the reduction (order-statistic box) and of the exact evaluator (cell decomposition of the unit cube, "
               "product measure), of the probability integral transform (sub-level sets of a continuous CDF are half-lines; "
               "Measure.pi_map_pi; a monotone map commutes with order statistics), of the binomial law of the count below a level under a product measure "
               "(disjoint boxes indexed by the subset of coordinates below the level; Measure.pi_pi; grouping subsets by size) and its "
-              "identification with the Beta distribution function of C15 (derivative of the binomial tail telescopes) + exact rational evaluation of the boundary-crossing probability on the code's tables",
+              "identification with the Beta distribution function of C15 (derivative of the binomial tail telescopes), of the absence of atoms of the ld statistic (a coordinate of the uniform "
+              "product measure avoids null sets; strict monotonicity of the Beta distribution function from its positive derivative) + exact rational evaluation of the boundary-crossing probability on the code's tables",
 )
